@@ -6,7 +6,8 @@ import UBidi.Props.C01Tie
 namespace UBidi.Props.C03Tie
 open UBidi
 
-theorem C03_tie_l1_arms (c : BidiClass) : C01Tie.armOf Gen.Code.arms_reorder_levels c = C01Tie.l1Arm c := C01Tie.tie_l1_arms c
+theorem C03_tie_l1_arms (c d : BidiClass) :
+    (C01Tie.armOf Gen.Code.arms_reorder_levels c = C01Tie.armOf Gen.Code.arms_reorder_levels d) ↔ (C01Tie.l1Arm c = C01Tie.l1Arm d) := C01Tie.tie_l1_arms c d
 theorem C03_tie_l1_removed (c : BidiClass) : (C01Tie.l1Arm c == 2) = c.removedByX9 := C01Tie.tie_l1_removed c
 theorem C03_tie_removed_by_x9 (c : BidiClass) : Gen.Code.removed_by_x9 c = c.removedByX9 := C01Tie.tie_removed_by_x9 c
 
